@@ -304,6 +304,8 @@ func runC08(c *Ctx) {
 			for _, cf := range []conf{{false, false, false, false, false}, {true, true, false, false, false}} {
 				run("N2.F2.focus", reqs, cf, vrt.Budget{F: 2})
 			}
+			// one fault and one non-default resolution of a select whose cases are ready together
+			run("N2.F1.S1.focus", reqs, conf{false, false, false, false, false}, vrt.Budget{F: 1, S: 1, Total: 2})
 			// the same with an application-owned redial loop around a bare RetryClient
 			run("manual.N2.F2.focus", reqs, conf{false, false, false, false, false}, vrt.Budget{F: 2})
 			if c.Thorough() {
